@@ -67,7 +67,8 @@ Proof. unfold qualify. destruct k; try discriminate. destruct ns; discriminate. 
 Lemma resolve_no_crash cx e c : resolve cx e <> Crash c.
 Proof.
   induction e as [v| |k s|k s|k s|o a IHa|o a IHa b IHb|c0 IHc a IHa b IHb]; cbn [resolve]; try discriminate.
-  - destruct (qualify (c_ns cx) k s) eqn:Q; cbn [bind]; try discriminate. exfalso; eapply qualify_no_crash; eauto.
+  - destruct (qualify (c_ns cx) k s) eqn:Q; cbn [bind]; try (destruct (eval_top _ _)); try discriminate.
+    exfalso; eapply qualify_no_crash; eauto.
   - destruct (qualify (c_ns cx) k s) eqn:Q; cbn [bind]; try (destruct (solved_now _ _)); try discriminate.
     exfalso; eapply qualify_no_crash; eauto.
   - destruct (qualify (c_ns cx) k s) eqn:Q; cbn [bind]; try discriminate. exfalso; eapply qualify_no_crash; eauto.
